@@ -571,6 +571,14 @@ def regenerate(only=None):
             translate_effects.regenerate(core.REPO, core.LEAN_DIR)
         except Exception as e:  # noqa: BLE001
             problems.append("C20.effects: %r" % (e,))
+    if only in (None, "C13", "C20"):
+        # static footprint of state that survives a call (module/class-level containers, memo decorators, lazy caches)
+        try:
+            from . import translate_state
+
+            translate_state.regenerate(core.REPO, core.LEAN_DIR)
+        except Exception as e:  # noqa: BLE001
+            problems.append("state footprint: %r" % (e,))
     for prop in props_with_leaves():
         if only is not None and prop != only:
             continue
